@@ -51,6 +51,18 @@ func AllowTrailingNonSpaceCharacters() Option {
 	}
 }
 
+// Clone returns a new document with the same content and options, standing at
+// the beginning. Reading lexemes from the clone doesn't affect the original
+// document and vice versa.
+func (d *Document) Clone() *Document {
+	c := &Document{
+		file:                            d.file,
+		allowTrailingNonSpaceCharacters: d.allowTrailingNonSpaceCharacters,
+	}
+	c.rewind()
+	return c
+}
+
 func (d *Document) NextLexeme() (lexeme.LexEvent, error) {
 	return d.nextLexeme()
 }
